@@ -204,7 +204,7 @@ def main():
         for r in load(os.path.join(OUT, "stage2.jsonl")):
             s2[r["id"]] = r
         s2b = {r["id"]: r for r in load(os.path.join(OUT, "stage2b.jsonl"))}
-        skipped = set(json.load(open(os.path.join(OUT, "out_of_scope_logging.json")))) if os.path.exists(os.path.join(OUT, "out_of_scope_logging.json")) else set()
+        skipped = {m["id"] for m in s1 if m["status"] == "survived" and out_of_scope(m)}
         for m in s1:
             if m["status"] == "survived" and m["id"] not in s2 and m["id"] not in skipped:
                 s2[m["id"]] = dict(m, status="hang", summary="(first pass: the engines hung until stopped)")
